@@ -393,6 +393,10 @@ fn gen_rounds(rng: &mut Rng, valid_only: bool) -> (usize, usize, Vec<RoundIn>) {
     (max_samples, max_flows, rounds)
 }
 
+pub fn gen_rounds_pub(rng: &mut Rng) -> (usize, usize, Vec<RoundIn>) {
+    gen_rounds(rng, true)
+}
+
 fn one(ms: usize, mf: usize, rounds: &[RoundIn], out: &mut Out) {
     let input = format!("state {ms} {mf} {}", render_rounds(rounds));
     let (rendered, _) = apply(ms, mf, rounds);
